@@ -595,4 +595,80 @@ Proof.
   - now apply put_subcatchment_spec.
 Qed.
 
+(* ------------------------------------------------------------------------------------------------ *)
+(** * Runs                                                                                           *)
+
+Definition reachable (s : state) : Prop := exists rs : list request, forallb wf_request rs = true /\ run init_state rs = Ok s.
+
+Lemma run_spec : forall (rs : list request) s, Inv s -> forallb wf_request rs = true -> exists s', run s rs = Ok s' /\ Inv s'.
+Proof.
+  induction rs as [|r rs IH]; intros s HI Hwf; simpl.
+  - eauto.
+  - simpl in Hwf. apply andb_true_iff in Hwf. destruct Hwf as [Hr Hrs].
+    destruct (handle_spec s r HI Hr) as (resp & s1 & H1 & HI1 & _). rewrite H1. now apply IH.
+Qed.
+
+Lemma reachable_Inv : forall s, reachable s -> Inv s.
+Proof.
+  intros s (rs & Hwf & Hrun). destruct (run_spec rs init_state Inv_init Hwf) as (s' & Hs' & HI). congruence.
+Qed.
+
+Lemma run_never_panics : forall rs : list request, forallb wf_request rs = true -> exists s : state, run init_state rs = Ok s.
+Proof. intros rs Hwf. destruct (run_spec rs init_state Inv_init Hwf) as (s & Hs & _). eauto. Qed.
+
+Lemma handle_returns : forall s r, reachable s -> wf_request r = true -> exists resp s', handle s r = Ok (resp, s').
+Proof.
+  intros s r Hs Hr. destruct (handle_spec s r (reachable_Inv s Hs) Hr) as (resp & s' & H & _). eauto.
+Qed.
+
+Lemma error_leaves_state : forall s r resp s', reachable s -> wf_request r = true ->
+  handle s r = Ok (resp, s') -> rs_status resp <> 200 -> s' = s.
+Proof.
+  intros s r resp s' Hs Hr H Hst.
+  destruct (handle_spec s r (reachable_Inv s Hs) Hr) as (resp1 & s1 & H1 & _ & Hsame).
+  rewrite H in H1. inversion H1; subst. now apply Hsame.
+Qed.
+
+Lemma status_documented : forall (s : state) (r : request) resp s',
+  handle s r = Ok (resp, s') -> In (rs_status resp) [200; 400; 404; 405; 415; 500; 503].
+Proof.
+  intros s r resp s' H. destruct (handle_shape s r resp s' H) as [[E|[E|[E|E]]]|[E _]]; try rewrite E; simpl; auto 8.
+Qed.
+
+Lemma error_is_json_document : forall (s : state) (r : request) resp s',
+  handle s r = Ok (resp, s') -> rs_status resp <> 200 -> rs_ctype resp = CtJson /\ rs_body resp = BErr.
+Proof.
+  intros s r resp s' H Hst. destruct (handle_shape s r resp s' H) as [[E|[E|[E|E]]]|[E _]]; try (rewrite E; split; reflexivity).
+  congruence.
+Qed.
+
+Lemma ok_is_not_error_document : forall (s : state) (r : request) resp s',
+  handle s r = Ok (resp, s') -> rs_status resp = 200 -> rs_body resp <> BErr.
+Proof.
+  intros s r resp s' H Hst. destruct (handle_shape s r resp s' H) as [[E|[E|[E|E]]]|[_ E]];
+    try (rewrite E in Hst; simpl in Hst; discriminate).
+  intro Hb. rewrite Hb in E. destruct (rs_ctype resp); exact E.
+Qed.
+
+(* what is declared as JSON is a value that went through the JSON marshaller (never the stored bytes); the stored
+   bytes are only ever sent with the TOML / CSV content type, unchanged (Response.writeBody is fmt.Fprint) *)
+Lemma json_bodies_are_marshalled : forall (s : state) (r : request) resp s',
+  handle s r = Ok (resp, s') ->
+  match rs_ctype resp with
+  | CtJson => match rs_body resp with BText _ => False | _ => True end
+  | CtToml | CtCsv => exists t, rs_body resp = BText t
+  | CtOther => False
+  end.
+Proof.
+  intros s r resp s' H. destruct (handle_shape s r resp s' H) as [[E|[E|[E|E]]]|[_ E]]; try (rewrite E; exact I).
+  destruct (rs_ctype resp), (rs_body resp); simpl in *; try contradiction; try exact I; eauto.
+Qed.
+
+(* without the hypothesis that the library calls return, the statement is false of the model *)
+Definition lib_panic_request : request :=
+  {| rq_meth := MPost; rq_route := RScenario; rq_ctype := CtToml; rq_raw := "t";
+     rq_toml := TomlOk "n" MLibPanic; rq_csv := CsvErr; rq_json := JsonErr |}.
+Lemma lib_panic_propagates : handle (init_state : state) lib_panic_request = Panic.
+Proof. reflexivity. Qed.
+
 End Proofs.
